@@ -911,7 +911,16 @@ def case_C19(seed):
                     break
                 if r is None or r == 'skipped':
                     continue
-                rr.append(U.canon(mt, r))
+                c_ = U.canon(mt, r)
+                if mt.lattice:
+                    # the selection continue_with_distance() starts from (the k best live matchings of the last columns)
+                    import io, contextlib
+                    with contextlib.redirect_stdout(io.StringIO()):
+                        try:
+                            c_['best_last'] = [sorted((str(m.key), m.logprob) for m in mt.best_last_matches(k=k_, nb_obs=2)) for k_ in (1, 2)]
+                        except Exception as e:
+                            c_['best_last'] = ('raised', type(e).__name__)
+                rr.append(c_)
             out.append(rr)
             cut = any(m.stop for col in (mt.lattice or {}).values() for lay in col.o for m in lay.values())
         finally:
